@@ -3,6 +3,7 @@ package zzverif
 import (
 	"encoding/json"
 	"fmt"
+	"github.com/ory/keto/internal/relationtuple"
 	"strings"
 	"testing"
 
@@ -149,6 +150,13 @@ func famCodec(t *testing.T) {
 				got, _ = json.Marshal(pq)
 				if string(got) != string(want) {
 					qok = false
+				}
+				// ... and decoded the way the gRPC list and delete handlers decode it
+				hq := relationtuple.VerifQueryFromProto(q.ToProto())
+				got, _ = json.Marshal(hq)
+				if string(got) != string(want) {
+					qok = false
+					res["query_handler"] = fmt.Sprintf("sent %s, the handlers decode %s", want, got)
 				}
 			}
 			res["query"] = qok
